@@ -185,25 +185,53 @@ Theorem C19_event_value : forall full rec wp content it,
 Proof. exact typed_emit_value. Qed.
 Print Assumptions C19_event_value.
 
+(* ================================================================== any spelling of the root *)
+(* A root spelled with trailing '/' (or "/" itself): paths are [joins root rel] (= os.path.join along the names), not
+   root ++ "/n1/...".  The emitter law carries over for every non-empty root: each path of each event is empty, or
+   the root joined with valid names, or - for the parent of a top-level entry - the root with its trailing separators
+   stripped ([norm_root root = dirname (join root n)]; equal to the root when it has no trailing '/'). *)
+Theorem C19_event_paths_any_root : forall root, root <> [] ->
+  forall full rec wp content it,
+  match it with
+  | Single x => jbelow root (r_path x) \/ (jrooted root (r_path x) /\ noparent (r_mask x) = true)
+  | Pair f t => jbelow root (r_path f) /\ jbelow root (r_path t)
+  end ->
+  (forall p, wf_tree (content p) = true) ->
+  forall e, In e (fst (emit full rec wp content it)) ->
+    jpath_ok root (ev_src e) /\ jpath_ok root (ev_dest e).
+Proof. exact emit_paths_any_root. Qed.
+Print Assumptions C19_event_paths_any_root.
+
+Theorem C19_dirname_top : forall root n, root <> [] -> valid_name n = true ->
+  dirname (join root n) = norm_root root.
+Proof. exact dirname_top. Qed.
+Print Assumptions C19_dirname_top.
+
 (* ================================================================== stated, not proved *)
-(* The NAME law for a root spelled with a trailing '/' (or "/" itself): paths are then [joins root rel], which is not
-   root ++ "/n1/..."; the parent of a top-level entry is the root with the slashes stripped.  Everything above is
-   proved for roots that do not end in '/' (absolute or relative); the other spellings are covered by the oracle and,
-   for the TYPE law and the inotify/polling agreement, by C19_type / C19_agree, which hold for every root. *)
-Definition C19_pipeline_any_root_full : Prop :=
-  forall P w s0 h s obs,
-  fs_names_ok (w_fs w) -> (forall o, In (AOp o) h -> op_names_ok o) ->
-  pinit P w = Some s0 -> prun P s0 h [] = Done (s, obs) ->
-  forall e, In e (p_out s) -> forall p, (p = ev_src e \/ p = ev_dest e) -> p <> [] ->
-    (exists rel, forallb valid_name rel = true /\ p = joins (c_root (pc_reader P)) rel) \/
-    p = rstrip_sep (c_root (pc_reader P)).
+(* The READER invariant for a root spelled with trailing separators.  (The pipeline model cannot be constructed on
+   such a root - its file system is keyed by the normalised spelling, C19_pipeline_root - so this is a statement
+   about read_batch alone.)  Proved above for roots that do not end in '/' (C19_reader_inv), absolute or relative;
+   the emitter half is proved for every root (C19_event_paths_any_root); the TYPE law and the inotify / polling
+   agreement hold for every root (C19_type, C19_agree); the oracle runs the trailing-slash spelling on the real
+   observers.  Not proved: the re-key step (replace_first on keys under a moved directory) needs a separate
+   case analysis when the root itself ends in '/'. *)
+Definition C19_reader_any_root_full : Prop :=
+  forall C, c_root C <> [] ->
+  forall t b r k acc r' k' acc',
+  fs_names_ok t -> jpath_inv (c_root C) r -> Forall (jraw_ok (c_root C)) acc -> Forall kraw_ok b ->
+  read_batch C t (r, k, acc) b = Done (r', k', acc') ->
+  jpath_inv (c_root C) r' /\ Forall (jraw_ok (c_root C)) acc'.
+(* the proved part *)
+Theorem C19_reader_any_root_partial :
+  forall C, c_root C <> [] -> last_is_sep (c_root C) = false ->
+  forall t b r k acc r' k' acc',
+  fs_names_ok t -> path_inv (c_root C) r -> Forall (raw_ok (c_root C)) acc -> Forall kraw_ok b ->
+  read_batch C t (r, k, acc) b = Done (r', k', acc') ->
+  path_inv (c_root C) r' /\ Forall (raw_ok (c_root C)) acc'.
+Proof. exact read_batch_inv. Qed.
+Print Assumptions C19_reader_any_root_partial.
 
 (* ================================================================== non-vacuity *)
-Definition rt_ : bytes := [47; 119]%N.                (* "/w" *)
-Definition eacute_ : bytes := [195; 169]%N.           (* "é" in UTF-8 *)
-Definition xff_ : bytes := [255]%N.                   (* b"\xff": undecodable *)
-Definition zhong_ : bytes := [228; 184; 173]%N.       (* "中" *)
-
 Example C19_dirname_nonvacuous :
   forallb valid_name [eacute_; xff_] = true /\
   dirname (rt_ ++ relsuffix ([eacute_] ++ [xff_])) = [47; 119; 47; 195; 169]%N.
@@ -228,16 +256,6 @@ Proof.
   - exists [], eacute_. repeat split.
   - exists [], zhong_. repeat split.
 Qed.
-
-Definition P_ : pcfg :=
-  {| pc_reader := {| c_recursive := true; c_mask := WATCHDOG_ALL; c_root := rt_; c_fix_ignored := true;
-                     c_fix_movein := true; c_fix_simulate := true; c_faults := [] |};
-     pc_full := false; pc_filter := None; pc_delay := 5 |}.
-Definition w_ : world := {| w_fs := [{| f_path := rt_; f_ino := 1; f_dir := true |}]; w_next_ino := 2 |}.
-Definition h_ : list action :=
-  [AOp (Mkdir (rt_ ++ relsuffix [eacute_])); AOp (Touch (rt_ ++ relsuffix [eacute_; xff_])); ARead 10;
-   AOp (Rename (rt_ ++ relsuffix [eacute_]) (rt_ ++ relsuffix [zhong_])); ARead 10; ATick 100;
-   AEmit; AEmit; AEmit; AEmit].
 
 (* mkdir "é"; touch "é/\xff"; rename "é" -> "中", through kernel, reader, buffer and emitter: 8 events, the last one
    the synthetic FileMovedEvent("/w/é/\xff", "/w/中/\xff") *)
@@ -277,6 +295,17 @@ Example C19_type_nonvacuous :
   te_dest (last (fst (typed_emit false true (tagged (watch_tag WBytes) rt_) content (Pair f t))) (tmk FileCreated pempty pempty))
     = tagged TBytes [47;119;47;228;184;173;47;255]%N.
 Proof. vm_compute. repeat split. Qed.
+
+(* a root spelled "/w/": create of b"\xff" at the top level - the event names "/w/\xff" (= join), its parent is "/w" *)
+Example C19_any_root_nonvacuous :
+  let x := {| r_wd := 1; r_mask := IN_CREATE; r_cookie := 0; r_name := xff_; r_path := join (rt_ ++ [sep]) xff_ |} in
+  jbelow (rt_ ++ [sep]) (r_path x) /\ norm_root (rt_ ++ [sep]) = rt_ /\
+  map (fun e => (ev_src e, ev_dest e)) (fst (emit false true (rt_ ++ [sep]) (fun _ => Node [] []) (Single x))) =
+    [([47;119;47;255], []); ([47;119], [])]%N.
+Proof.
+  cbv zeta. split; [|split; vm_compute; reflexivity].
+  exists xff_, []. repeat split.
+Qed.
 
 Example C19_agree_nonvacuous :
   inotify_path (tagged TStr rt_) [zhong_; xff_] = tagged TStr [47;119;47;228;184;173;47;255]%N /\
